@@ -245,7 +245,7 @@ impl OtlpBuilder {
         };
 
         let receive = async move {
-            let processors =
+            let mut processors =
                 FuturesUnordered::<Pin<Box<dyn Future<Output = ()> + Send + 'static>>>::new();
 
             if let Some((transport, receiver)) = process_otlp_logs {
@@ -290,7 +290,10 @@ impl OtlpBuilder {
             // Process batches from each signal independently
             // This ensures one signal becoming unavailable doesn't
             // block the others
-            let _ = processors.into_future().await;
+            //
+            // Wait for all of them to complete; each one finishes
+            // once it's drained what was queued when the emitter is dropped
+            while processors.next().await.is_some() {}
         };
 
         // Spawn a background thread to process batches
